@@ -67,7 +67,18 @@ def copy_option_clause(ctx, res, ce, prop, cid, outputs=True):
         if isinstance(n, ast.Attribute) and self_attr(n.value) == roles.params:
             flag_attr = n.attr
     if flag_attr is None:
-        raise AnalysisError('anchor-lost role=copy flag read in the executor')
+        # the executor never looks at the parameters of the recording in progress: whatever decides the copy instead (a snapshot taken when the
+        # recording started, kept per thread / per recorder) is not the option of the operation that this interception belongs to
+        other = [n for n in ast.walk(ex.node) if (isinstance(n, ast.Attribute) and 'copy' in n.attr.lower() and n.attr != 'pickle_copy') or
+                 (isinstance(n, ast.Constant) and isinstance(n.value, str) and 'copy' in n.value.lower())]
+        if not other:
+            raise AnalysisError('anchor-lost role=copy flag read in the executor')
+        ce.instance('the executor reads the copy option from the active recording parameters', ex.qualname, False)
+        res.add(Finding(prop, cid, 'R-DOM', ex.file, ex.qualname, other[0].lineno, norm(other[0])[:80],
+                        'the executor decides whether to copy from `%s`, not from the parameters of the recording in progress: a snapshot kept elsewhere '
+                        '(per thread, per recorder) is not set for interceptions made on the operation\'s worker threads or is stale for the next '
+                        'operation - values are then recorded uncopied although the class asked for copies' % norm(other[0])[:60]))
+        return
     for node, value, st in dx.stores:
         deps = set(value.deps)
         if any(str(d).startswith('exc-from:') for d in deps):
@@ -269,7 +280,7 @@ def run(ctx):
     _ci.import_clauses(ctx, res, 'C07', ['C07.c', 'C07.e'], 'C11', 'C11.g', 'R-PROV',
                        'cassettes store encoded text / rebuild fetched recordings from decoded parts: fetched values share nothing with the store', floor=5)
     from . import common as _r7
-    _r7.import_clauses(ctx, res, 'C17', ['C17.e'], 'C11', 'C11.h', 'R-AGREE', 'the copy-on-interception option is the one registered for the operation class object', floor=2)
+    _r7.import_clauses(ctx, res, 'C17', ['C17.e', 'C17.g'], 'C11', 'C11.h', 'R-AGREE', 'the copy-on-interception option is the one registered for the operation class object, stored as the caller gave it', floor=2)
     return res
 
 
